@@ -201,6 +201,7 @@ def compare(ctx, rule, fa, ref_source, module=None, known=(), ignore=None, why='
     _compare_defaults(ctx, rule, fa, ref, positional_params, why)
     got = effects(fa, rename, drop_guards=drop_guards)
     want = effects(ref, drop_guards=drop_guards)
+    got, want = _inline_one_sided(ctx, got, want)
     if normalize is not None:
         def _n(lst):
             out = []
@@ -260,6 +261,132 @@ def compare(ctx, rule, fa, ref_source, module=None, known=(), ignore=None, why='
         _report(ctx, rule, fa, None, None, _show_effect(q, hs), known, why, f'missing-effect#{k}')
     _ABBREV.clear()
     return ref
+
+
+# ---------------------------------------------------------------------------
+# helper inlining: a package-local, effect-free function that only ONE side calls is replaced by
+# its return value on that side, so that extracting an expression into a helper (or inlining an
+# existing helper) is not reported as a change.
+
+_FORBIDDEN_IN_INLINE = ('mut', 'nth')
+
+
+def _pkg_calls(ctx, eff):
+    out = set()
+    for p, gs, _ in eff:
+        ts = [x for x in p if isinstance(x, tuple)] + [c for c, _ in gs]
+        for t in ts:
+            for x in T.walk(t):
+                if isinstance(x, tuple) and x and x[0] == 'call' and isinstance(x[1], tuple) and x[1][0] == 'g' \
+                        and isinstance(x[1][1], str) and x[1][1].startswith(ctx.repo.pkg + '.') and x[1][1] in ctx.repo.funcs:
+                    out.add(x[1][1])
+    return out
+
+
+def _summary(ctx, qual):
+    """(params, defaults, term) of an effect-free helper, or None."""
+    cache = ctx.__dict__.setdefault('_inline_cache', {})
+    if qual in cache:
+        return cache[qual]
+    cache[qual] = None
+    fi = ctx.repo.funcs[qual]
+    if fi.cls is not None or fi.parent is not None or fi.node.decorator_list:
+        return None
+    a = fi.node.args
+    if a.vararg or a.kwarg:
+        return None
+    try:
+        fa = FuncAnalysis(ctx.repo, fi, versioned=False)
+    except Exception:
+        return None
+    rets = []
+    for e in fa.events:
+        if e.d.get('in_lambda') or e.d.get('in_comp'):
+            continue
+        if e.kind == 'return':
+            rets.append(e)
+        elif e.kind in ('raise', 'yield', 'yield_from', 'store_sub', 'store_attr', 'aug_sub', 'aug_attr', 'del',
+                        'store_global', 'store_nonlocal', 'break', 'continue', 'with') or (e.kind == 'call' and e.stmt):
+            return None
+        if e.loops:
+            return None
+    if not rets:
+        return None
+    acc = T.C(None) if rets[-1].cguards else None
+    for e in reversed(rets):
+        conds = [(c if pol else T.not_(c)) for (c, pol), k in zip(e.guards, e.gkinds) if k == 'if']
+        if acc is None:
+            acc = e.value
+            continue
+        if not conds:
+            acc = e.value
+        else:
+            c = conds[0]
+            for c2 in conds[1:]:
+                c = T.nary('and', [c, c2])
+            acc = T.ite(c, e.value, acc)
+    for x in T.walk(acc):
+        if isinstance(x, tuple) and x and (x[0] in _FORBIDDEN_IN_INLINE or (x[0] == 'g' and isinstance(x[1], str) and x[1].startswith('$'))
+                                           or (x[0] == 'v' and isinstance(x[1], str) and x[1].startswith(('$', 'v', 'u')) and x[1] not in fa.params
+                                               and len(x[1]) > 6)):
+            return None
+    params = [x.arg for x in list(a.posonlyargs) + list(a.args)]
+    kwonly = [x.arg for x in a.kwonlyargs]
+    _, defs = _defaults(fi.node)
+    dterms = {}
+    for k, d in defs.items():
+        try:
+            dterms[k] = T.C(ast.literal_eval(d))
+        except (ValueError, SyntaxError, TypeError):
+            dterms[k] = None
+    cache[qual] = (params, kwonly, dterms, acc)
+    return cache[qual]
+
+
+def _inline_term(ctx, t, quals):
+    def f(x):
+        if x[0] != 'call' or not isinstance(x[1], tuple) or x[1][0] != 'g' or x[1][1] not in quals:
+            return None
+        sm = _summary(ctx, x[1][1])
+        if sm is None:
+            return None
+        params, kwonly, dterms, body = sm
+        args, kws = x[2], x[3]
+        if any(a[0] == 'star' for a in args) or any(k[0] != 'kw' for k in kws) or len(args) > len(params):
+            return None
+        bound = dict(zip(params, args))
+        for k in kws:
+            if k[1] not in params and k[1] not in kwonly or k[1] in bound:
+                return None
+            bound[k[1]] = k[2]
+        for p in params + kwonly:
+            if p not in bound:
+                if dterms.get(p) is None:
+                    return None
+                bound[p] = dterms[p]
+        return T.subst(body, {T.V(k): v for k, v in bound.items()})
+    return T.transform(t, f)
+
+
+def _inline_one_sided(ctx, got, want):
+    for _ in range(3):
+        a, b = _pkg_calls(ctx, got), _pkg_calls(ctx, want)
+        only_a = {q for q in a - b if _summary(ctx, q) is not None}
+        only_b = {q for q in b - a if _summary(ctx, q) is not None}
+        if not only_a and not only_b:
+            break
+
+        def ap(lst, quals):
+            if not quals:
+                return lst
+            out = []
+            for p, gs, e in lst:
+                p2 = tuple(_inline_term(ctx, x, quals) if isinstance(x, tuple) else x for x in p)
+                gs2 = frozenset((_inline_term(ctx, c, quals), pol) for c, pol in gs)
+                out.append((p2, gs2, e))
+            return out
+        got, want = ap(got, only_a), ap(want, only_b)
+    return got, want
 
 
 def _defaults(node):
